@@ -890,6 +890,12 @@ class Interp:
                 return None
             if name == "len" and not args:
                 return len(recv.items)
+            if name == "reverse" and not args:
+                recv.items.reverse()
+                return None
+            if name == "clear" and not args:
+                del recv.items[:]
+                return None
         if isinstance(recv, FnVal) and name == "is_closure" and not args:
             return bool(recv.free)
         if isinstance(recv, str) and name == "len" and not args:
